@@ -30,6 +30,7 @@ import (
 	"strconv"
 	"strings"
 	"sync"
+	"sync/atomic"
 	"time"
 
 	"github.com/DOSNetwork/core/log"
@@ -215,6 +216,17 @@ func base(fn string) string {
 	return pkg + "." + parts[k]
 }
 
+// entryBase: the function the goroutine was started with (outermost repo frame that is not a hook)
+func entryBase(g gor) string {
+	for i := len(g.funcs) - 1; i >= 0; i-- {
+		f := g.funcs[i]
+		if strings.HasPrefix(f, "github.com/DOSNetwork/core/") && !strings.Contains(f, ".Verif") {
+			return base(f)
+		}
+	}
+	return ""
+}
+
 func isHarness(g gor) bool {
 	for _, f := range g.funcs {
 		if strings.HasPrefix(f, "verifharness/") {
@@ -364,7 +376,7 @@ func runOnce(s *scen) (outcome string, err error) {
 		if baseline[g.id] || g.id == self || isHarness(g) {
 			continue
 		}
-		b := base(g.funcs[0])
+		b := entryBase(g)
 		if watch[b] {
 			count[b]++
 		}
@@ -510,7 +522,7 @@ func exec1(line string) h.Result {
 		outs = append(outs, o)
 	}
 	sort.Strings(outs)
-	res := h.Result{Impl: strings.Join(outs, " | "), Class: s.p + " keep=" + s.keep, Nontrivial: s.cancels || s.pre}
+	res := h.Result{Impl: strings.Join(outs, " | "), Class: s.p + " keep=" + s.keep + flakyNote(), Nontrivial: s.cancels || s.pre}
 	for _, f := range s.feed {
 		if !strings.Contains(f[1], "c") {
 			res.Nontrivial = true
@@ -555,12 +567,62 @@ func execFull(line string) h.Result {
 	return res
 }
 
-// repeat runs a line reps times in child processes and counts the distinct outcomes
+// repeat runs a line in child processes and returns the distinct outcomes with their counts.
+// Go's scheduler and select are random: the line is run in batches of reps repetitions until a
+// batch brings no new outcome (at most maxBatches), so that a rare interleaving does not show up
+// as a disagreement in one run and not in the next; the number of batches needed is reported in the
+// histogram class ("+k batches").
+const maxBatches = 4
+
+var (
+	stuckCases     int32 // child processes that had to be killed
+	extraBatch     int32
+	flakyUnsettled int32
+)
+
 func repeat(line string, reps int) map[string]int {
 	seen := map[string]int{}
+	if atomic.LoadInt32(&stuckCases) >= 3 {
+		seen["not-run"]++ // three cases hung before: do not wait for the rest
+		return seen
+	}
+	for b := 0; b < maxBatches; b++ {
+		before := len(seen)
+		batch(line, reps, seen)
+		// "unsettled" is an observation problem of the harness (a loaded machine), not an outcome:
+		// those repetitions are run again, up to three times, and counted as flaky
+		for try := 0; try < 3 && seen["unsettled"] > 0; try++ {
+			n := seen["unsettled"]
+			delete(seen, "unsettled")
+			atomic.AddInt32(&flakyUnsettled, int32(n))
+			batch(line, n, seen)
+		}
+		if b > 0 && len(seen) == before {
+			break
+		}
+		if b > 0 {
+			atomic.AddInt32(&extraBatch, 1)
+		}
+		if seen["harness-timeout"] > 0 {
+			break
+		}
+	}
+	return seen
+}
+
+// flakyNote marks, in the histogram class of the case, that repetitions had to be re-run
+func flakyNote() string {
+	if n := atomic.SwapInt32(&flakyUnsettled, 0); n > 0 {
+		return fmt.Sprintf(" (flaky: %d unsettled repetitions re-run)", n)
+	}
+	return ""
+}
+
+func batch(line string, reps int, seen map[string]int) {
 	remaining := reps
 	for remaining > 0 {
-		cmd := exec.Command(os.Args[0], "exec", "C14")
+		ctx, cancel := context.WithTimeout(context.Background(), time.Duration(20+4*remaining)*time.Second)
+		cmd := exec.CommandContext(ctx, os.Args[0], "exec", "C14")
 		var in bytes.Buffer
 		for i := 0; i < remaining; i++ {
 			in.WriteString("child " + line + "\n")
@@ -569,6 +631,8 @@ func repeat(line string, reps int) map[string]int {
 		var out, errb bytes.Buffer
 		cmd.Stdout, cmd.Stderr = &out, &errb
 		runErr := cmd.Run()
+		timedOut := ctx.Err() != nil
+		cancel()
 		got := 0
 		sc := bufio.NewScanner(&out)
 		sc.Buffer(make([]byte, 1<<16), 1<<24)
@@ -578,14 +642,18 @@ func repeat(line string, reps int) map[string]int {
 			got++
 		}
 		remaining -= got
+		if timedOut {
+			atomic.AddInt32(&stuckCases, 1)
+			seen["harness-timeout"]++
+			return
+		}
 		if runErr != nil {
 			seen[crashOutcome(errb.String())]++
 			remaining--
 		} else if got == 0 {
-			break
+			return
 		}
 	}
-	return seen
 }
 
 // oracle: the property itself on the observations. When the deadline fired (x / pre) and the
@@ -596,7 +664,7 @@ func oracle(s *scen, outs []string) string {
 		switch {
 		case strings.HasPrefix(o, "crash="):
 			return strings.TrimPrefix(o, "crash=") + ": " + o + " in " + s.raw
-		case strings.HasPrefix(o, "died:"), o == "unsettled", strings.HasPrefix(o, "error"):
+		case strings.HasPrefix(o, "died:"), o == "unsettled", strings.HasPrefix(o, "error"), o == "harness-timeout", o == "not-run":
 			return "harness-" + strings.SplitN(o, ":", 2)[0] + ": " + o + " in " + s.raw
 		}
 	}
@@ -626,9 +694,9 @@ func oracle(s *scen, outs []string) string {
 	return ""
 }
 
-// channels whose closing is the collector loop's job once they are registered (30 min watchdog):
+// channels whose closing is the collector loop's job once they are registered (30 min / 1 min watchdog):
 // not observable within a test run, proved in the model instead
-var handedOff = map[string]bool{"dosnode.dispatchSign.out": true}
+var handedOff = map[string]bool{"dosnode.dispatchSign.out": true, "dkg.askMembers.out": true}
 
 func execLine(line string) h.Result {
 	if strings.HasPrefix(line, "child full ") {
